@@ -385,6 +385,7 @@ type seenReq struct{ id, prov []byte }
 
 type gen struct {
 	r    *rand.Rand
+	r2   *rand.Rand // side decisions added later, so that the main stream of choices stays what it was
 	sim  *Sim
 	prof *profile
 	hp   historyParams
@@ -724,11 +725,18 @@ func (g *gen) bindTarget() (svc string, prov, owner []byte, ok bool) {
 			continue
 		}
 		prov = g.oneOf(providerAddrs)
+		// the ordinary deployment: an owner that is its own provider (and may own other providers as well)
+		self := g.r2 != nil && g.r2.Intn(100) < 12
+		if self {
+			prov = ownerAddrs[g.r2.Intn(2)]
+		}
 		if _, bound := g.v.binding(svc, prov); bound {
 			continue
 		}
 		if cur, found := g.sim.k.GetOwner(g.sim.ctx, prov); found {
 			owner = cur
+		} else if self && g.r2.Intn(100) < 85 {
+			owner = prov
 		} else {
 			owner = g.oneOf(ownerAddrs)
 		}
@@ -1853,6 +1861,7 @@ func (g *gen) nextOp() string {
 func generateHistory(seed int64, index int, prof *profile, nOps int, path string) (*histStats, error) {
 	g := &gen{
 		r:       rand.New(rand.NewSource(seed*1000003 + int64(index))),
+		r2:      rand.New(rand.NewSource(seed*1000033 + int64(index)*17 + 3)),
 		sim:     NewSim(),
 		prof:    prof,
 		hist:    index,
